@@ -287,7 +287,7 @@ func genNode32() *rapid.Generator[[]byte] {
 
 func TestC17Rapid(t *testing.T) {
 	rec := evid.For("C17")
-	runRapid(t, 6000, 60000, func(rt *rapid.T) {
+	runRapid(t, 6000, 400000, func(rt *rapid.T) {
 		c := rec.Begin()
 		kind := drawWeighted(rt, "kind", []weighted{{"proof", 5}, {"node", 2}, {"leaf", 2}, {"ids", 1}})
 		c.Class("rapid/" + kind)
